@@ -184,6 +184,16 @@ extern "C" fn native_cb(
 ) -> *mut TsRunValue {
     let mode = userdata as usize as u8;
     unsafe {
+        // a callback whose own API call fails and that forwards the context's error text (valid
+        // until the next tsrun_* call, i.e. long enough for the trampoline to read it)
+        if mode == 248 || mode == 249 {
+            let r = if mode == 248 { tsrun_json_parse(ctx, c"{\"broken\": ".as_ptr()) } else { tsrun_get_global(ctx, ptr::null()) };
+            if r.value.is_null() && !r.error.is_null() && !error_out.is_null() {
+                *error_out = r.error;
+                return ptr::null_mut();
+            }
+            return r.value;
+        }
         // identity-style callbacks: hand back one of the handles that were passed in
         if mode >= 250 {
             return if mode % 2 == 0 && argc > 0 && !args.is_null() { *args.add((mode as usize / 2) % argc) } else { this_arg };
@@ -415,6 +425,9 @@ impl<'a> Exec<'a> {
                 TsRunStepStatus::Complete => {
                     let shown = show_handle(self.ctxs[c].ptr, res.value);
                     self.trace.push_str(&format!("complete:{};", shown.chars().take(60).collect::<String>()));
+                    if shown.contains("Unknown error") {
+                        self.fail("callback_error_text_lost", shown.chars().take(160).collect(), json!({"value": shown}));
+                    }
                     // script-visible contents of host values
                     if let Some(pi) = self.ctxs[c].prepared {
                         let st = &self.ctxs[c];
@@ -483,6 +496,14 @@ impl<'a> Exec<'a> {
                         self.fail("error_status_without_message", "step".into(), json!({}));
                     }
                     self.note_error(c, res.error, "step");
+                    // every error text a callback of this harness reports is valid UTF-8 (a static
+                    // string or the context's own last error, forwarded within its lifetime): the
+                    // trampoline's fallback text means it read something else
+                    if let Some(Ok(t)) = read_cstr(res.error)
+                        && t.contains("Unknown error")
+                    {
+                        self.fail("callback_error_text_lost", t.chars().take(160).collect(), json!({"error_text": t}));
+                    }
                     self.ctxs[c].prepared = None;
                     self.ctxs[c].expected_answers.clear();
                     self.trace.push_str("error;");
@@ -1603,7 +1624,7 @@ pub fn generate_history(rng: &mut Rng) -> Scn {
             23 => Op::CallMethod(a, b, c),
             24 => Op::SetGlobal(a, c, b),
             25 => Op::GetGlobal(a, c),
-            26 => Op::NativeFn(a, if d % 5 == 0 { 250 + (c % 6) } else { c }),
+            26 => Op::NativeFn(a, if d % 5 == 0 { 248 + (c % 8) } else { c }),
             27 => Op::GcStats(a),
             28 => Op::GetExport(a, c),
             29 => Op::ExportNames(a),
